@@ -4,6 +4,7 @@ import (
 	"fmt"
 	"log"
 	"path/filepath"
+	"strings"
 	"time"
 
 	"github.com/go-logr/logr"
@@ -32,19 +33,21 @@ type Case struct {
 	Slow    bool     `json:"slow_sink,omitempty"`
 	PollUS  int      `json:"poll_us,omitempty"`
 	SetSrc  bool     `json:"set_sources"`
+	PaceUS  int      `json:"pace_us,omitempty"` // producers pause this long every 16 messages (lets a ring-buffered logger keep up)
 	Procs   int      `json:"gomaxprocs"`
 	Dir     string   `json:"dir"`
 }
 
 func (c Case) canonical() string {
-	return fmt.Sprintf("%s rep=%d P=%d N=%d members=%v appends=%v ring=%d slow=%v poll=%dus setsrc=%v procs=%d",
-		c.Ctor, c.Rep, c.P, c.N, c.Members, c.Appends, c.Ring, c.Slow, c.PollUS, c.SetSrc, c.Procs)
+	return fmt.Sprintf("%s rep=%d P=%d N=%d members=%v appends=%v ring=%d slow=%v poll=%dus pace=%dus setsrc=%v procs=%d",
+		c.Ctor, c.Rep, c.P, c.N, c.Members, c.Appends, c.Ring, c.Slow, c.PollUS, c.PaceUS, c.SetSrc, c.Procs)
 }
 
 // group is a set of sinks which together must hold every message once (a logger's own sink(s), or one
 // member of a composite).
 type group struct {
 	name      string
+	kind      string // implementation class of the sink (part of a violation's signature)
 	sinks     []sinkReader
 	secondary bool // an additional sink nobody promised (e.g. stderr copy of NewFileLogger): multiplicity is calibrated only
 	appendBit int  // -1: present from the start; k: appended while running, completeness judged only for messages begun after Append returned
@@ -337,6 +340,18 @@ func (c Case) build() (*built, error) {
 	}
 	if b.lg == nil {
 		return nil, fmt.Errorf("constructor %s returned nil", c.Ctor)
+	}
+	for _, g := range b.groups {
+		switch {
+		case strings.Contains(g.name, "string"):
+			g.kind = "StringWriter"
+		case g.sinks[0].name == "stdout":
+			g.kind = "std-streams"
+		case strings.Contains(g.name, "file"):
+			g.kind = "file"
+		default:
+			g.kind = "recorder"
+		}
 	}
 	return b, nil
 }
